@@ -51,8 +51,10 @@ def inventory_of(root):
     for path in sorted(glob.glob(os.path.join(root, "magpylib", "**", "*.py"), recursive=True)):
         rel = os.path.relpath(path, root)
         tree = ast.parse(open(path, encoding="utf-8").read())
-        for q in module_functions(tree):
+        for q, (fn_, _o) in module_functions(tree).items():
             inv.append(f"{rel}:{q.split('#')[0]}")
+            for n_, _h in Inliner._direct_nested(fn_):
+                inv.append(f"{rel}:{q.split('#')[0]}.<locals>.{n_.name}")
         for n in tree.body:
             if isinstance(n, ast.ClassDef):
                 inv.append(f"{rel}:class {n.name}")
@@ -247,6 +249,43 @@ class Inliner:
                       for x in ast.walk(fn))
             if len(stmts_y) == len(ys) and not bad:
                 self.gen_helpers[q] = (fn, None)
+        # @contextmanager generators consumed by a `with` statement: one yield, at function level or directly inside a try/finally without handlers
+        self.cm_helpers = {}
+        for q, (fn, owner) in self.funcs.items():
+            if "#" in q or f"{rel}:{q}" in self.inv or owner is not None or fn.args.vararg or fn.args.kwarg or len(fn.decorator_list) != 1 \
+                    or not ast.unparse(fn.decorator_list[0]).endswith("contextmanager"):
+                continue
+            ys = [x for x in ast.walk(fn) if isinstance(x, (ast.Yield, ast.YieldFrom))]
+            if len(ys) != 1 or isinstance(ys[0], ast.YieldFrom) or any(isinstance(x, (ast.Return, ast.FunctionDef, ast.ClassDef, ast.Lambda, ast.Global, ast.Nonlocal)) and x is not fn for x in ast.walk(fn)):
+                continue
+            spots = [b for b in [fn.body] + [t.body for t in fn.body if isinstance(t, ast.Try) and not t.handlers and not t.orelse]
+                     if any(isinstance(st, ast.Expr) and st.value is ys[0] for st in b)]
+            if spots:
+                self.cm_helpers[q] = (fn, None)
+        # class-based context managers that are not part of the reference tree: __init__ stores call-free expressions of its parameters,
+        # __exit__ never suppresses (returns only False / None) and ignores the exception it is handed
+        self.cm_classes = {}
+        for n in tree.body:
+            if not isinstance(n, ast.ClassDef) or f"{rel}:class {n.name}" in self.inv or n.bases or n.keywords or n.decorator_list:
+                continue
+            ms = {m.name: m for m in n.body if isinstance(m, ast.FunctionDef)}
+            if set(ms) != {"__init__", "__enter__", "__exit__"} or any(m.decorator_list or m.args.vararg or m.args.kwarg for m in ms.values()):
+                continue
+            ex = ms["__exit__"]
+            exc_params = {a.arg for a in ex.args.args[1:]}
+            ok = all(r.value is None or (isinstance(r.value, ast.Constant) and r.value.value in (False, None)) for r in ast.walk(ex) if isinstance(r, ast.Return)) \
+                and not any(isinstance(x, ast.Name) and x.id in exc_params for x in ast.walk(ex)) and len(ex.args.args) == 4 and len(ms["__enter__"].args.args) == 1
+            fields = {}
+            for st in ms["__init__"].body:
+                if isinstance(st, ast.Expr) and isinstance(st.value, ast.Constant):
+                    continue
+                if isinstance(st, ast.Assign) and len(st.targets) == 1 and isinstance(st.targets[0], ast.Attribute) and isinstance(st.targets[0].value, ast.Name) \
+                        and st.targets[0].value.id == "self" and _pure(st.value) and not any(isinstance(x, ast.Name) and x.id == "self" for x in ast.walk(st.value)):
+                    fields[st.targets[0].attr] = st.value
+                else:
+                    ok = False
+            if ok and fields and all(_basic_ok(m) for m in ms.values()):
+                self.cm_classes[n.name] = (n, ms, fields)
         # no recursion among helpers
         for q in list(self.helpers):
             if self._reaches(q, q, set()):
@@ -345,9 +384,14 @@ class Inliner:
             if not _always_exits(new):
                 new = new + [ast.Return(value=ast.Constant(value=None))]
         else:
-            new = _structure(body, res_name if mode == "value" else None)
+            new = _structure(body, "__inl_result__" if mode == "value" else None)
         mod_ = ast.Module(body=new, type_ignores=[])
         _Subst(ren, sub).visit(mod_)
+        if mode == "value":
+            # the caller's target is not a local of the helper: it is put in after the helper's locals were renamed
+            for x in ast.walk(mod_):
+                if isinstance(x, ast.Name) and x.id == "__inl_result__":
+                    x.id = res_name
         self.inlined[q] = self.inlined.get(q, 0) + 1
         return pre + mod_.body
 
@@ -412,6 +456,103 @@ class Inliner:
         self.inlined[q] = self.inlined.get(q, 0) + 0        # counted by _expand already
         return m.body
 
+    def _fuse_cm_class(self, w, caller_fn):
+        """`with CM(args) as v: body`, CM a small non-suppressing context-manager class  ->
+              <fields of CM as locals> ; <body of __enter__> [; v = its result] ; try: body  finally: <body of __exit__>"""
+        call = w.items[0].context_expr
+        cname = call.func.id
+        node, ms, fields = self.cm_classes[cname]
+        init = ms["__init__"]
+        params = [a.arg for a in init.args.args][1:]
+        if call.keywords or len(call.args) != len(params) or not all(_pure(a) for a in call.args):
+            return None
+        self.counter += 1
+        prefix = f"_cm{self.counter}"
+        bind = dict(zip(params, call.args))
+        out = []
+        for f, e in fields.items():
+            m = ast.Module(body=[ast.Expr(value=copy.deepcopy(e))], type_ignores=[])
+            _Subst({}, bind).visit(m)
+            out.append(ast.Assign(targets=[ast.Name(id=f"{prefix}__{f}", ctx=ast.Store())], value=m.body[0].value, lineno=w.lineno))
+        marker = f"{prefix}__self"
+
+        def method(name, mode, res):
+            saved = self.helpers
+            self.helpers = dict(saved)
+            q = f"{cname}.{name}"
+            self.helpers[q] = (ms[name], node)
+            fake = ast.Call(func=ast.Attribute(value=ast.Name(id="self", ctx=ast.Load()), attr=name, ctx=ast.Load()),
+                            args=[ast.Constant(value=None)] * (len(ms[name].args.args) - 1), keywords=[])
+            try:
+                return self._expand(fake, q, caller_fn, mode, res, self_name=marker)
+            finally:
+                self.helpers = saved
+        try:
+            tg = w.items[0].optional_vars
+            enter = method("__enter__", "value" if tg is not None else "effect", tg.id if tg is not None else None)
+            exit_ = method("__exit__", "effect", None)
+        except NotInlinable:
+            return None
+
+        class F(ast.NodeTransformer):
+            bad = False
+
+            def visit_Attribute(self_, n):
+                if isinstance(n.value, ast.Name) and n.value.id == marker:
+                    if n.attr not in fields:
+                        F.bad = True
+                        return n
+                    return ast.Name(id=f"{prefix}__{n.attr}", ctx=n.ctx)
+                return self_.generic_visit(n)
+
+            def visit_Name(self_, n):
+                if n.id == marker:
+                    F.bad = True        # the manager object itself escapes
+                return n
+        m = ast.Module(body=enter + [ast.Try(body=list(w.body), handlers=[], orelse=[], finalbody=exit_ or [ast.Pass()], lineno=w.lineno)], type_ignores=[])
+        # only the method bodies are rewritten, not the with-body (it cannot name the manager: there is no `as` binding to it)
+        e2 = ast.Module(body=enter, type_ignores=[]); F().visit(e2)
+        x2 = ast.Module(body=exit_, type_ignores=[]); F().visit(x2)
+        if F.bad:
+            return None
+        self.inlined[cname] = self.inlined.get(cname, 0) + 1
+        return out + e2.body + [ast.Try(body=list(w.body), handlers=[], orelse=[], finalbody=x2.body or [ast.Pass()], lineno=w.lineno)]
+
+    def _fuse_with(self, w, caller_fn):
+        """`with cm(args) as v: body` with cm a @contextmanager generator  ->  the generator's body with `yield x` replaced by `v = x; body`
+        (an exception raised in the body is raised at the yield, so a try/finally around the yield keeps its meaning)"""
+        call = w.items[0].context_expr
+        q = call.func.id
+        saved = self.helpers
+        self.helpers = dict(saved)
+        self.helpers[q] = self.cm_helpers[q]
+        try:
+            tg = w.items[0].optional_vars
+            tnames = {x.id for x in ast.walk(tg) if isinstance(x, ast.Name)} if tg is not None else set()
+            body_names = {x.id for st in w.body for x in ast.walk(st) if isinstance(x, ast.Name)}
+            fake_caller = ast.Module(body=[caller_fn, ast.Expr(value=ast.Tuple(elts=[ast.Name(id=t, ctx=ast.Load()) for t in tnames | body_names], ctx=ast.Load()))], type_ignores=[])
+            new = self._expand(call, q, fake_caller, "return", None)
+        except NotInlinable:
+            return None
+        finally:
+            self.helpers = saved
+        if new and isinstance(new[-1], ast.Return) and isinstance(new[-1].value, ast.Constant) and new[-1].value.value is None:
+            new = new[:-1]
+
+        class Y(ast.NodeTransformer):
+            def visit_Expr(self_, n):
+                if not isinstance(n.value, ast.Yield):
+                    return n
+                out = []
+                if tg is not None:
+                    out.append(ast.Assign(targets=[copy.deepcopy(tg)], value=n.value.value or ast.Constant(value=None), lineno=n.lineno))
+                elif n.value.value is not None and not isinstance(n.value.value, (ast.Name, ast.Constant)):
+                    out.append(ast.Expr(value=n.value.value, lineno=n.lineno))
+                return out + list(w.body)
+        m = ast.Module(body=new, type_ignores=[])
+        Y().visit(m)
+        return m.body
+
     # ------------------------------------------------------------- statements
     def _first_call(self, exprs, owner):
         """first inlinable call in evaluation order such that everything evaluated before it is simple; -> Call or None"""
@@ -473,7 +614,7 @@ class Inliner:
 
     def _stmt(self, s, caller_fn, owner, depth=0):
         """-> list of statements replacing s"""
-        if depth > 6:
+        if depth > 6 or isinstance(s, (ast.FunctionDef, ast.ClassDef, ast.AsyncFunctionDef)):
             return [s]
         # recurse into blocks first
         for f in ("body", "orelse", "finalbody"):
@@ -507,6 +648,16 @@ class Inliner:
         if isinstance(s, ast.For) and not s.orelse and isinstance(s.iter, ast.Call) and isinstance(s.iter.func, ast.Name) \
                 and s.iter.func.id in self.gen_helpers and s.iter.func.id != getattr(caller_fn, "name", None):
             fused = self._fuse(s, caller_fn)
+            if fused is not None:
+                return self._block(fused, caller_fn, owner, depth + 1)
+        if isinstance(s, ast.With) and len(s.items) == 1 and isinstance(s.items[0].context_expr, ast.Call) and isinstance(s.items[0].context_expr.func, ast.Name) \
+                and s.items[0].context_expr.func.id in self.cm_helpers and (s.items[0].optional_vars is None or isinstance(s.items[0].optional_vars, (ast.Name, ast.Tuple))):
+            fused = self._fuse_with(s, caller_fn)
+            if fused is not None:
+                return self._block(fused, caller_fn, owner, depth + 1)
+        if isinstance(s, ast.With) and len(s.items) == 1 and isinstance(s.items[0].context_expr, ast.Call) and isinstance(s.items[0].context_expr.func, ast.Name) \
+                and s.items[0].context_expr.func.id in self.cm_classes and (s.items[0].optional_vars is None or isinstance(s.items[0].optional_vars, ast.Name)):
+            fused = self._fuse_cm_class(s, caller_fn)
             if fused is not None:
                 return self._block(fused, caller_fn, owner, depth + 1)
         heads = []
@@ -557,6 +708,66 @@ class Inliner:
             out += self._stmt(s, caller_fn, owner, depth)
         return out
 
+    @staticmethod
+    def _direct_nested(fn):
+        """(def node, containing statement list) of the functions defined directly inside fn (not inside another nested def / class / lambda)"""
+        out = []
+
+        def walk(stmts):
+            for st in stmts:
+                if isinstance(st, ast.FunctionDef):
+                    out.append((st, stmts))
+                    continue
+                if isinstance(st, (ast.ClassDef, ast.AsyncFunctionDef)):
+                    continue
+                for f in ("body", "orelse", "finalbody"):
+                    blk = getattr(st, f, None)
+                    if isinstance(blk, list) and blk and isinstance(blk[0], ast.stmt):
+                        walk(blk)
+                for h in getattr(st, "handlers", []) or []:
+                    walk(h.body)
+        walk(fn.body)
+        return out
+
+    def _process(self, q, fn, owner):
+        """inline into fn; closures defined in fn (and not part of the reference tree) are helpers for the duration"""
+        shadowed, mine = {}, []
+        nested_all = self._direct_nested(fn)
+        params_f = {a.arg for a in fn.args.posonlyargs + fn.args.args + fn.args.kwonlyargs} | {a.arg for a in (fn.args.vararg, fn.args.kwarg) if a}
+        for n, holder in nested_all:
+            if f"{self.rel}:{q.split('#')[0]}.<locals>.{n.name}" in self.inv or not _basic_ok(n):
+                continue
+            if n.name in params_f or sum(1 for m, _h in nested_all if m.name == n.name) > 1:
+                continue        # the name may also denote something else
+            if any(isinstance(x, ast.Call) and isinstance(x.func, ast.Name) and x.func.id == n.name for x in ast.walk(n)):
+                continue        # recursive closure
+            if any(isinstance(x, ast.Name) and x.id == n.name and isinstance(x.ctx, ast.Store) for x in ast.walk(fn)):
+                continue        # the name is rebound
+            shadowed[n.name] = self.helpers.get(n.name)
+            self.helpers[n.name] = (n, None)
+            mine.append((n, holder))
+        try:
+            fn.body = self._block(fn.body, fn, owner)
+        finally:
+            for name, old in shadowed.items():
+                if old is None:
+                    self.helpers.pop(name, None)
+                else:
+                    self.helpers[name] = old
+        for n, holder in mine:
+            still = any(isinstance(x, ast.Name) and x.id == n.name for x in ast.walk(fn))
+            if not still:
+                for blk_owner in ast.walk(fn):
+                    for f in ("body", "orelse", "finalbody"):
+                        blk = getattr(blk_owner, f, None)
+                        if isinstance(blk, list) and n in blk:
+                            blk.remove(n)
+                            if not blk:
+                                blk.append(ast.Pass())
+                    for h in getattr(blk_owner, "handlers", []) or []:
+                        if n in h.body:
+                            h.body.remove(n)
+
     def run(self):
         # helpers first (inner helper calls), bounded
         for _ in range(3):
@@ -565,7 +776,7 @@ class Inliner:
         for q, (fn, owner) in self.funcs.items():
             if q in self.helpers:
                 continue
-            fn.body = self._block(fn.body, fn, owner)
+            self._process(q, fn, owner)
         return self.inlined
 
 
@@ -644,9 +855,22 @@ class Scalarizer:
         if isinstance(e, ast.Call) and isinstance(e.func, ast.Name) and e.func.id in self.records and not any(isinstance(a, ast.Starred) for a in e.args) \
                 and all(k.arg for k in e.keywords):
             return e.func.id
+        if isinstance(e, ast.Tuple) and len(e.elts) >= 2 and not any(isinstance(a, ast.Starred) for a in e.elts):
+            # a tuple literal is an anonymous record (fields _0, _1, ..), usable with unpacking loops only
+            name = f"<tuple{len(e.elts)}>"
+            if name not in self.records:
+                fs = [f"_{i}" for i in range(len(e.elts))]
+                self.records[name] = {"params": fs, "defaults": {}, "exprs": {f: ast.Name(id=f, ctx=ast.Load()) for f in fs}, "fields": fs, "tuple": True,
+                                      "methods": {}, "node": None, "anonymous": True}
+            return name
         return None
 
     def _field_exprs(self, call):
+        if isinstance(call, ast.Tuple):
+            R = self.records[f"<tuple{len(call.elts)}>"]
+            if not all(_pure(v) for v in call.elts):
+                return None
+            return {f: v for f, v in zip(R["fields"], call.elts)}
         R = self.records[call.func.id]
         bind = dict(zip(R["params"], call.args))
         if len(call.args) > len(R["params"]):
@@ -679,7 +903,7 @@ class Scalarizer:
             if isinstance(st, ast.Assign) and len(st.targets) == 1 and isinstance(st.targets[0], ast.Name):
                 v, L = st.value, st.targets[0].id
                 if isinstance(v, ast.ListComp) and self._ctor(v.elt):
-                    cands.setdefault(L, {"cls": v.elt.func.id, "defs": []})["defs"].append(st)
+                    cands.setdefault(L, {"cls": self._ctor(v.elt), "defs": []})["defs"].append(st)
                 elif isinstance(v, ast.List) and not v.elts:
                     cands.setdefault(L, {"cls": None, "defs": []})["defs"].append(st)
         for L, c in list(cands.items()):
@@ -695,7 +919,7 @@ class Scalarizer:
                 elif isinstance(p_, ast.Attribute) and p_.attr == "append" and isinstance(parents.get(id(p_)), ast.Call) and parents[id(p_)].func is p_ \
                         and isinstance(parents.get(id(parents[id(p_)])), ast.Expr) and len(parents[id(p_)].args) == 1 and self._ctor(parents[id(p_)].args[0]):
                     call = parents[id(p_)]
-                    cls = call.args[0].func.id
+                    cls = self._ctor(call.args[0])
                     if c["cls"] not in (None, cls):
                         ok = False
                     c["cls"] = cls
@@ -744,7 +968,7 @@ class Scalarizer:
                     return False
                 plans.append((lp, None))
                 continue
-            if not isinstance(tg, ast.Name):
+            if not isinstance(tg, ast.Name) or R.get("anonymous"):
                 return False
             rv = tg.id
             if any(isinstance(x, ast.Name) and x.id == rv and isinstance(x.ctx, ast.Store) for st in lp.body for x in ast.walk(st)):
@@ -911,7 +1135,9 @@ class Normalizer(ast.NodeTransformer):
             st = out[i]
             if isinstance(st, ast.Assign) and len(st.targets) == 1 and isinstance(st.targets[0], ast.Name) and isinstance(st.value, ast.Call) \
                     and isinstance(st.value.func, ast.Name) and st.value.func.id == "slice" and 1 <= len(st.value.args) <= 3 and not st.value.keywords \
-                    and all(isinstance(a, (ast.Name, ast.Constant)) for a in st.value.args):
+                    and all(isinstance(a, (ast.Name, ast.Constant)) or (isinstance(a, ast.Subscript) and _pure(a) and
+                                                                           all(isinstance(x, (ast.Name, ast.Constant, ast.Subscript, ast.BinOp, ast.operator, ast.expr_context)) for x in ast.walk(a)))
+                            for a in st.value.args):
                 r = st.targets[0].id
                 rest = out[i + 1:]
                 uses, other, last = [], False, -1
@@ -927,7 +1153,7 @@ class Normalizer(ast.NodeTransformer):
                                 uses.append(p); last = j
                             else:
                                 other = True
-                argn = {a.id for a in st.value.args if isinstance(a, ast.Name)}
+                argn = {x.id for a in st.value.args for x in ast.walk(a) if isinstance(x, ast.Name)}
                 clobber = any(isinstance(x, ast.Name) and x.id in argn and isinstance(x.ctx, (ast.Store, ast.Del)) for s2 in rest[:last + 1] for x in ast.walk(s2))
                 if uses and not other and not clobber and self.fn_stores.get(r, 0) == 1:
                     a = st.value.args
@@ -962,14 +1188,111 @@ class Normalizer(ast.NodeTransformer):
                 self.count += 1
         return out
 
+    def _split_assign(self, stmts):
+        """N6  `a, b = x, y` -> `a = x; b = y` when no later value reads an earlier target; `a = b = v` (v a name or constant) -> `a = v; b = v`"""
+        out = []
+        for st in stmts:
+            if isinstance(st, ast.Assign) and len(st.targets) == 1 and isinstance(st.targets[0], ast.Tuple) and isinstance(st.value, ast.Tuple) \
+                    and len(st.targets[0].elts) == len(st.value.elts) and not any(isinstance(x, ast.Starred) for x in st.targets[0].elts + st.value.elts):
+                tg, vs = st.targets[0].elts, st.value.elts
+                ok = all(isinstance(t, (ast.Name, ast.Attribute)) for t in tg)
+                for i, t in enumerate(tg):
+                    tt = ast.unparse(t)
+                    root = tt.split(".")[0]
+                    for v in vs[i + 1:]:
+                        vt = [ast.unparse(x) for x in ast.walk(v) if isinstance(x, (ast.Name, ast.Attribute))]
+                        if tt in vt or (isinstance(t, ast.Name) and root in vt) or any(isinstance(x, ast.Call) for x in ast.walk(v)) and isinstance(t, ast.Attribute):
+                            ok = False
+                if ok:
+                    self.count += 1
+                    out += [ast.Assign(targets=[t], value=v, lineno=st.lineno) for t, v in zip(tg, vs)]
+                    continue
+            if isinstance(st, ast.Assign) and len(st.targets) > 1 and isinstance(st.value, (ast.Name, ast.Constant)) \
+                    and all(isinstance(t, (ast.Name, ast.Attribute)) for t in st.targets):
+                self.count += 1
+                out += [ast.Assign(targets=[t], value=copy.deepcopy(st.value), lineno=st.lineno) for t in st.targets]
+                continue
+            out.append(st)
+        return out
+
+    def _while_to_for(self, stmts, fn_after_ok):
+        """N7  `i = a` ... `while i <= n: body; i += 1`  ->  `for i in range(a, n + 1): body`   (a an int literal; i and n not rebound in
+        the body, no `continue`, no else, and i not read after the loop)"""
+        out = list(stmts)
+        for j, w in enumerate(out):
+            if not (isinstance(w, ast.While) and not w.orelse and isinstance(w.test, ast.Compare) and len(w.test.ops) == 1 and isinstance(w.test.ops[0], (ast.Lt, ast.LtE))
+                    and isinstance(w.test.left, ast.Name) and isinstance(w.test.comparators[0], (ast.Name, ast.Constant)) and w.body):
+                continue
+            i, n = w.test.left.id, w.test.comparators[0]
+            last = w.body[-1]
+            if not (isinstance(last, ast.AugAssign) and isinstance(last.op, ast.Add) and isinstance(last.target, ast.Name) and last.target.id == i
+                    and isinstance(last.value, ast.Constant) and last.value.value == 1):
+                continue
+            body = w.body[:-1]
+            if not body:
+                continue
+            names_n = {n.id} if isinstance(n, ast.Name) else set()
+            bad = any((isinstance(x, ast.Name) and x.id in ({i} | names_n) and isinstance(x.ctx, (ast.Store, ast.Del))) or isinstance(x, ast.Continue)
+                      for st in body for x in ast.walk(st))
+            if bad:
+                continue
+            init = None
+            for k in range(j - 1, -1, -1):
+                st = out[k]
+                mentions = any(isinstance(x, ast.Name) and x.id == i for x in ast.walk(st))
+                if isinstance(st, ast.Assign) and len(st.targets) == 1 and isinstance(st.targets[0], ast.Name) and st.targets[0].id == i \
+                        and isinstance(st.value, ast.Constant) and isinstance(st.value.value, int) and not isinstance(st.value.value, bool):
+                    init = k
+                    break
+                if mentions:
+                    break
+            if init is None:
+                continue
+            after = out[j + 1:]
+            if any(isinstance(x, ast.Name) and x.id == i and isinstance(x.ctx, ast.Load) for st in after for x in ast.walk(st)) or not fn_after_ok(i, w, out[:j]):
+                continue
+            hi = n if isinstance(w.test.ops[0], ast.Lt) else ast.BinOp(left=n, op=ast.Add(), right=ast.Constant(value=1))
+            loop = ast.For(target=ast.Name(id=i, ctx=ast.Store()), iter=ast.Call(func=ast.Name(id="range", ctx=ast.Load()), args=[out[init].value, hi], keywords=[]),
+                           body=body, orelse=[], lineno=w.lineno)
+            out[j] = loop
+            del out[init]
+            self.count += 1
+            return self._while_to_for(out, fn_after_ok)
+        return out
+
+    def _post(self, blk):
+        blk = self._split_assign(blk)
+        fn = getattr(self, "cur_fn", None)
+
+        def after_ok(i, w, before):
+            # i must not be read anywhere in the function outside the loop, except in the statements that precede it in its own block
+            if fn is None:
+                return False
+            inside = {id(x) for x in ast.walk(w)} | {id(x) for st in before for x in ast.walk(st)}
+            return not any(isinstance(x, ast.Name) and x.id == i and isinstance(x.ctx, ast.Load) and id(x) not in inside for x in ast.walk(fn))
+        return self._while_to_for(blk, after_ok)
+
+    def generic_visit(self, node):
+        super().generic_visit(node)
+        for f_ in ("body", "orelse", "finalbody"):
+            blk = getattr(node, f_, None)
+            if isinstance(blk, list) and blk and isinstance(blk[0], ast.stmt):
+                setattr(node, f_, self._post(blk))
+        for h in getattr(node, "handlers", []) or []:
+            h.body = self._post(h.body)
+        return node
+
     def visit_FunctionDef(self, f):
         prev = getattr(self, "fn_stores", {})
         self.fn_stores = {}
         for x in ast.walk(f):
             if isinstance(x, ast.Name) and isinstance(x.ctx, (ast.Store, ast.Del)):
                 self.fn_stores[x.id] = self.fn_stores.get(x.id, 0) + 1
+        prev_fn = getattr(self, "cur_fn", None)
+        self.cur_fn = f
         self.generic_visit(f)
         f.body = self._copy_prop(self._slice_alias(f.body))
+        self.cur_fn = prev_fn
         self.fn_stores = prev
         return f
 
@@ -1055,14 +1378,13 @@ def build_inlined_tree(src_root, dst_root):
                 other[n.name] = {m for m, where in defined.items() if any(w != (rel, n.name) for w in where)}
         inl = Inliner(rel, t, inv, other)
         recs = record_classes(t, rel, inv)
-        if not inl.helpers and not inl.gen_helpers and not recs:
-            continue
+        has_closures = any(Inliner._direct_nested(fn_) for fn_, _o in inl.funcs.values())
         done = inl.run()
         if done:
             changed.add(rel)
             for q, k in done.items():
                 report["inlined"][f"{rel}:{q}"] = k
-        if recs:
+        if True:
             sc = Scalarizer(inl, recs)
             for q, (fn, owner) in inl.funcs.items():
                 if owner is None or owner.name not in recs:
@@ -1072,7 +1394,7 @@ def build_inlined_tree(src_root, dst_root):
                 report.setdefault("scalarised", {})[rel] = sc.count
                 for cname, R in recs.items():
                     node = R["node"]
-                    if node in t.body:
+                    if node is not None and node in t.body:
                         idx = t.body.index(node)
                         t.body.remove(node)
                         if _referenced(trees.values(), cname):
@@ -1084,6 +1406,19 @@ def build_inlined_tree(src_root, dst_root):
         t = trees[rel]
         for q in [k.split(":", 1)[1] for k in report["inlined"] if k.startswith(rel + ":")]:
             name = q.split(".")[-1]
+            if name.startswith("__") and name.endswith("__"):
+                continue            # special methods are referenced implicitly; their class goes as a whole (below) or stays
+            cnode = next((n for n in t.body if isinstance(n, ast.ClassDef) and n.name == q), None)
+            if cnode is not None:
+                # a fused context-manager class: dead once no other reference is left
+                idx = t.body.index(cnode)
+                t.body.remove(cnode)
+                if _referenced(trees.values(), q):
+                    t.body.insert(idx, cnode)
+                    report["kept"].append(f"{rel}:class {q}")
+                else:
+                    report["removed"].append(f"{rel}:class {q}")
+                continue
             holder = t
             if "." in q:
                 holder = next(n for n in t.body if isinstance(n, ast.ClassDef) and n.name == q.split(".")[0])
